@@ -841,6 +841,56 @@ def judge(ctx, res, stats):
     return stats
 
 
+def typed_service_witness(ctx):
+    """Typed variables (the generated graphs are untyped): a decision service whose own variable, output decision and input decision have DIFFERENT declared
+    types, called as a FEEL function (the arguments of a FEEL call are coerced to the declared types of the formal parameters) and by a boxed invocation.
+    Each parameter of the service carries the type of the input decision / input data it stands for, so a conforming argument arrives unchanged and the
+    service computes its output decision over it (seeded change C04_i: the parameter of an input decision was given the type of the service's variable)."""
+    xml = (XHEAD +
+           '<inputData name="pts" id="i1"><variable name="pts" typeRef="number"/></inputData>'
+           '<inputData name="tag" id="i2"><variable name="tag" typeRef="string"/></inputData>'
+           '<decision name="score" id="d1"><variable name="score" typeRef="number"/><informationRequirement><requiredInput href="#i1"/></informationRequirement>'
+           '<literalExpression><text>pts * 2</text></literalExpression></decision>'
+           '<decision name="grade" id="d2"><variable name="grade" typeRef="string"/><informationRequirement><requiredDecision href="#d1"/></informationRequirement>'
+           '<literalExpression><text>if score >= 50 then "pass" else "fail"</text></literalExpression></decision>'
+           '<decisionService name="grading" id="s1"><variable name="grading" typeRef="string"/><outputDecision href="#d2"/><inputDecision href="#d1"/></decisionService>'
+           '<decision name="word" id="d3"><variable name="word" typeRef="string"/><informationRequirement><requiredInput href="#i2"/></informationRequirement>'
+           '<literalExpression><text>tag + "!"</text></literalExpression></decision>'
+           '<decision name="size" id="d4"><variable name="size" typeRef="number"/><informationRequirement><requiredDecision href="#d3"/></informationRequirement>'
+           '<informationRequirement><requiredInput href="#i1"/></informationRequirement><literalExpression><text>string length(word) + pts</text></literalExpression></decision>'
+           '<decisionService name="sizing" id="s2"><variable name="sizing" typeRef="number"/><outputDecision href="#d4"/><inputDecision href="#d3"/><inputData href="#i1"/></decisionService>'
+           '<decision name="report" id="d5"><variable name="report" typeRef="string"/><informationRequirement><requiredInput href="#i1"/></informationRequirement>'
+           '<knowledgeRequirement><requiredKnowledge href="#s1"/></knowledgeRequirement><literalExpression><text>"r: " + grading(pts + 10)</text></literalExpression></decision>'
+           '<decision name="boxed" id="d6"><variable name="boxed" typeRef="string"/><informationRequirement><requiredInput href="#i1"/></informationRequirement>'
+           '<knowledgeRequirement><requiredKnowledge href="#s1"/></knowledgeRequirement><invocation><literalExpression><text>grading</text></literalExpression>'
+           '<binding><parameter name="score"/><literalExpression><text>pts + 10</text></literalExpression></binding></invocation></decision>'
+           '<decision name="measure" id="d7"><variable name="measure" typeRef="number"/><informationRequirement><requiredInput href="#i1"/></informationRequirement>'
+           '<informationRequirement><requiredInput href="#i2"/></informationRequirement><knowledgeRequirement><requiredKnowledge href="#s2"/></knowledgeRequirement>'
+           '<literalExpression><text>sizing(pts + 1, tag + tag) * 10</text></literalExpression></decision>'
+           '<decision name="named" id="d8"><variable name="named" typeRef="number"/><informationRequirement><requiredInput href="#i1"/></informationRequirement>'
+           '<informationRequirement><requiredInput href="#i2"/></informationRequirement><knowledgeRequirement><requiredKnowledge href="#s2"/></knowledgeRequirement>'
+           '<literalExpression><text>sizing(word: tag, pts: 100) + pts</text></literalExpression></decision></definitions>')
+    calls, want = [], []
+    for pts, tag in ((5, 'ab'), (40, 'xyz'), (45, ''), (90, 'q')):
+        c = '{pts: %d, tag: "%s"}' % (pts, tag)
+        g = lambda sc: 'pass' if sc >= 50 else 'fail'
+        for name, w in (('report', ('s', 'r: ' + g(pts + 10))), ('boxed', ('s', g(pts + 10))), ('measure', numc((len(tag + tag) + pts + 1) * 10)), ('named', numc(len(tag) + 100 + pts)),
+                        ('grade', ('s', g(pts * 2))), ('size', numc(len(tag) + 1 + pts))):
+            calls.append([name, c])
+            want.append(w)
+    ans = ctx.run_impl('model', [{'xml': xml, 'calls': calls}])[0]
+    if not isinstance(ans, dict) or ans.get('build') != 'ok' or len(ans.get('results', [])) != len(calls):
+        ctx.violation('the typed-service witness model was not built / evaluated: %s' % json.dumps(ans)[:300], {'xml': xml})
+        return
+    for call, r, w in zip(calls, ans['results'], want):
+        ctx.evaluations += 1
+        ctx.corr_checked += 1
+        got = norm(r.get('v')) if 'v' in r else ('?', json.dumps(r))
+        if got != w:
+            ctx.violation('decision %s invoked with %s returns %s; its logic evaluated over its requirement graph (typed decision services called as functions) gives %s'
+                          % (call[0], call[1], json.dumps(r)[:200], repr(w)), {'invocable': call[0], 'input': call[1], 'xml': xml}, impl=r, model=repr(w))
+
+
 def run(ctx):
     ctx.proof_gate()
     ctx.build_harness()
@@ -867,6 +917,7 @@ def run(ctx):
                          ('graphs: literal of 35+ digits in a logic (rounded when read)', re.search(r"\('num', \d{35,}\)", src) is not None)):
             if hit:
                 stats[key] = stats.get(key, 0) + 1
+    typed_service_witness(ctx)
     return ctx.finish(
         rule='acyclic DRGs of 4..%d nodes generated node by node (each node requires earlier nodes): number-typed inputs; decisions with literal, boxed context (entries seeing earlier entries, '
              'optional result entry, nested boxed values), boxed invocation and relation logic; knowledge models with 1-3 parameters (18 %% of them with a repeated parameter name) invoked by f(x) and by '
